@@ -546,15 +546,16 @@ def merge_file_level(
         old_value, field = fields[name]
 
         try:
+            # set the value first, since validators may replace it by a normalised form
+            setattr(new, name, value)
             validate_field(new, field, value)
         except Exception as exc:
+            setattr(new, name, getattr(config, name))
             warning(MystWarnings.MD_TOPMATTER, str(exc))
             continue
 
         if field.metadata.get("merge_topmatter"):
-            value = {**old_value, **value}
-
-        setattr(new, name, value)
+            setattr(new, name, {**old_value, **getattr(new, name)})
 
     return new
 
